@@ -310,35 +310,14 @@ Definition prop_body (st : pbuilder) : list proposal := map fst st.
 (* the transaction builder: sub-builders, witness collection, build_tx pre-conditions *)
 Record txb := mkTxb {
   t_inputs : ibuilder; t_collateral : ibuilder; t_mint : mbuilder; t_certs : cbuilder;
-  t_wdrl : wbuilder; t_votes : vbuilder; t_props : pbuilder; t_mint_amt : mint_amounts }.
-Definition txb_empty : txb := mkTxb ib_empty ib_empty [] [] [] [] [] [].
+  t_wdrl : wbuilder; t_votes : vbuilder; t_props : pbuilder; t_mint_amt : mint_amounts;
+  t_hash : bool }.      (* a script data hash is stored in the builder *)
+Definition txb_empty : txb := mkTxb ib_empty ib_empty [] [] [] [] [] [] false.
 
 Inductive op :=
 | OpIn (o : in_op) | OpCol (o : in_op) | OpMint (m : mint_op) | OpCert (c : wop cert)
-| OpWd (w : wop racct) | OpVote (v : wop voter) | OpProp (p : wop proposal).
-
-(* one call; an Err leaves the builder unchanged (the caller sees the error) *)
-Definition step (st : txb) (o : op) : txb * bool :=
-  let keep {A} (r : result A) (old : A) : A * bool := match r with Ok a => (a, true) | _ => (old, false) end in
-  match o with
-  | OpIn i => (mkTxb (ib_step (t_inputs st) i) (t_collateral st) (t_mint st) (t_certs st) (t_wdrl st) (t_votes st) (t_props st) (t_mint_amt st), true)
-  | OpCol i => (mkTxb (t_inputs st) (ib_step (t_collateral st) i) (t_mint st) (t_certs st) (t_wdrl st) (t_votes st) (t_props st) (t_mint_amt st), true)
-  | OpMint m => let (x, ok) := keep (mint_step (t_mint st) m) (t_mint st) in
-                (mkTxb (t_inputs st) (t_collateral st) x (t_certs st) (t_wdrl st) (t_votes st) (t_props st)
-                       (if ok then mint_amt_step (t_mint_amt st) m else t_mint_amt st), ok)
-  | OpCert c => let (x, ok) := keep (cert_step (t_certs st) c) (t_certs st) in
-                (mkTxb (t_inputs st) (t_collateral st) (t_mint st) x (t_wdrl st) (t_votes st) (t_props st) (t_mint_amt st), ok)
-  | OpWd w => let (x, ok) := keep (wd_step (t_wdrl st) w) (t_wdrl st) in
-              (mkTxb (t_inputs st) (t_collateral st) (t_mint st) (t_certs st) x (t_votes st) (t_props st) (t_mint_amt st), ok)
-  | OpVote v => let (x, ok) := keep (vote_step (t_votes st) v) (t_votes st) in
-                (mkTxb (t_inputs st) (t_collateral st) (t_mint st) (t_certs st) (t_wdrl st) x (t_props st) (t_mint_amt st), ok)
-  | OpProp p => let (x, ok) := keep (prop_step (t_props st) p) (t_props st) in
-                (mkTxb (t_inputs st) (t_collateral st) (t_mint st) (t_certs st) (t_wdrl st) (t_votes st) x (t_mint_amt st), ok)
-  end.
-
-Definition run_from (st : txb) (ops : list op) : txb * list bool :=
-  fold_left (fun acc o => let (st', ok) := step (fst acc) o in (st', snd acc ++ [ok])) ops (st, []).
-Definition run (ops : list op) : txb * list bool := run_from txb_empty ops.
+| OpWd (w : wop racct) | OpVote (v : wop voter) | OpProp (p : wop proposal)
+| OpCalc.      (* calc_script_data_hash in the middle of the history (the harness calls it once more before building) *)
 
 (* PlutusWitnesses::collect, redeemer part: the first occurrence of each distinct redeemer, in order *)
 Fixpoint dedup_first (l : list redeemer) : list redeemer :=
@@ -352,6 +331,35 @@ Definition all_witness_redeemers (st : txb) : list redeemer :=
   ++ wd_plutus (t_wdrl st) ++ vote_plutus (t_votes st) ++ prop_plutus (t_props st).
 Definition tx_redeemers (st : txb) : list redeemer := dedup_first (all_witness_redeemers st).
 
+(* calc_script_data_hash stores a hash when it finds a redeemer (then also datums / used languages may exist); when it finds
+   nothing it leaves a hash stored by an earlier call in place *)
+Definition has_script_data (st : txb) : bool := match all_witness_redeemers st with [] => false | _ => true end.
+
+(* one call; an Err leaves the builder unchanged (the caller sees the error) *)
+Definition step (st : txb) (o : op) : txb * bool :=
+  let keep {A} (r : result A) (old : A) : A * bool := match r with Ok a => (a, true) | _ => (old, false) end in
+  match o with
+  | OpIn i => (mkTxb (ib_step (t_inputs st) i) (t_collateral st) (t_mint st) (t_certs st) (t_wdrl st) (t_votes st) (t_props st) (t_mint_amt st) (t_hash st), true)
+  | OpCol i => (mkTxb (t_inputs st) (ib_step (t_collateral st) i) (t_mint st) (t_certs st) (t_wdrl st) (t_votes st) (t_props st) (t_mint_amt st) (t_hash st), true)
+  | OpMint m => let (x, ok) := keep (mint_step (t_mint st) m) (t_mint st) in
+                (mkTxb (t_inputs st) (t_collateral st) x (t_certs st) (t_wdrl st) (t_votes st) (t_props st)
+                       (if ok then mint_amt_step (t_mint_amt st) m else t_mint_amt st) (t_hash st), ok)
+  | OpCert c => let (x, ok) := keep (cert_step (t_certs st) c) (t_certs st) in
+                (mkTxb (t_inputs st) (t_collateral st) (t_mint st) x (t_wdrl st) (t_votes st) (t_props st) (t_mint_amt st) (t_hash st), ok)
+  | OpWd w => let (x, ok) := keep (wd_step (t_wdrl st) w) (t_wdrl st) in
+              (mkTxb (t_inputs st) (t_collateral st) (t_mint st) (t_certs st) x (t_votes st) (t_props st) (t_mint_amt st) (t_hash st), ok)
+  | OpVote v => let (x, ok) := keep (vote_step (t_votes st) v) (t_votes st) in
+                (mkTxb (t_inputs st) (t_collateral st) (t_mint st) (t_certs st) (t_wdrl st) x (t_props st) (t_mint_amt st) (t_hash st), ok)
+  | OpProp p => let (x, ok) := keep (prop_step (t_props st) p) (t_props st) in
+                (mkTxb (t_inputs st) (t_collateral st) (t_mint st) (t_certs st) (t_wdrl st) (t_votes st) x (t_mint_amt st) (t_hash st), ok)
+  | OpCalc => (mkTxb (t_inputs st) (t_collateral st) (t_mint st) (t_certs st) (t_wdrl st) (t_votes st) (t_props st) (t_mint_amt st)
+                     (t_hash st || has_script_data st), true)
+  end.
+
+Definition run_from (st : txb) (ops : list op) : txb * list bool :=
+  fold_left (fun acc o => let (st', ok) := step (fst acc) o in (st', snd acc ++ [ok])) ops (st, []).
+Definition run (ops : list op) : txb * list bool := run_from txb_empty ops.
+
 (* has_plutus_inputs (the collateral is not consulted) *)
 Definition tx_has_plutus (st : txb) : bool :=
   ib_has_plutus (t_inputs st) || mint_has_plutus (t_mint st) || wentries_has_plutus (t_certs st)
@@ -364,12 +372,13 @@ Record built := mkBuilt {
 
 (* build_tx, when has_plutus_inputs(): "script data hash is not specified" and "no collateral inputs are added" are
    errors.  The harness always calls calc_script_data_hash (complete cost models, no datums), which sets the hash
-   exactly when it finds a redeemer or a used language, i.e. when some builder emits a Plutus witness; a Plutus
+   exactly when it finds a redeemer or a used language, i.e. when some builder emits a Plutus witness (and keeps a hash
+   stored by an earlier call otherwise: OpCalc); a Plutus
    witness that is registered but not emitted (an input re-added as a key input keeps its old witness) therefore makes
    build_tx fail.  Fee and balance are arranged by the harness (add_change_if_needed). *)
 Definition tx_build (st : txb) : result built :=
   if (tx_has_plutus st
-      && (match all_witness_redeemers st with [] => true | _ => false end
+      && (negb (t_hash st || has_script_data st)
           || match ib_inputs (t_collateral st) with [] => true | _ => false end))
      (* MintBuilder::build: an asset whose accumulated quantity is 0 is an error ("MintAssets cannot be created with 0 value") *)
      || existsb (fun e => (snd e =? 0)%Z) (t_mint_amt st)
